@@ -34,6 +34,13 @@ def _text(cp):
 
 
 def _key(clause, info, case):
+    op = case.get("op")
+    if op == "filesc":
+        cfg = case["cfg"]
+        return ":".join([clause, cfg["api"], "etag=" + cfg["etag_mode"], "change=" + case["change"], "sent=" + case["sent"],
+                         case.get("method", "GET")] + (["range"] if case.get("range") else []) + (["first"] if case.get("first") else []))
+    if op == "etag":
+        return ":".join([clause, case["via"], "weak" if case.get("weak") else "strong"] + (["preset"] if case.get("preset") else []))
     c = cd.norm(case)
     parts = [clause, c["api"], c["method"]]
     for k in ("range", "spec", "ifr", "inm", "im", "ims"):
@@ -48,6 +55,15 @@ def _key(clause, info, case):
 
 
 def _observed(ln):
+    if ln.get("op") == "etag":
+        return {k: (_text(ln[k]) if k.startswith(("tag", "get1_o")) else ln[k]) for k in
+                ("tag1", "tag2", "get1_opaque", "get1_weak", "get1_none", "status_inm", "status_im", "exc")}
+    if ln.get("op") == "file":
+        return {"status": ln["status"], "exc": ln["exc"], "etag": _text(ln["r_etag"]), "last_modified": _text(ln["r_lm"]),
+                "content_length": _text(ln["cl"]), "content_range": _text(ln["cr"]), "cache_control": _text(ln["cc"]),
+                "expires": _text(ln["exp"]), "prev_etag": _text(ln["prev_etag"]), "prev_last_modified": _text(ln["prev_lm"]),
+                "state": [ln["length"], ln["mtime_s"], ln["mtime_us"]], "prev_state": [ln["prev_size"], ln["prev_mtime_s"], ln["prev_mtime_us"]],
+                "body": _text(ln["body"])}
     return {"status": ln["status"], "exc": ln["exc"], "content_range": _text(ln["cr"]) if ln["cr_n"] else None,
             "content_length": _text(ln["cl"]) if ln["cl_n"] else None, "body": _text(ln["body"]), "modified": ln["modified"]}
 
@@ -64,7 +80,10 @@ def judge_cases(ctx: Ctx, cases, kind="c11"):
     ctx.notes.setdefault("phase_s", {})["recorded"] = round(ctx.elapsed(), 1)
     for k, c in enumerate(cases):
         ln = lines[k]
-        if ln["status"] in (206, 304, 412, 416):
+        if c.get("op") in ("filesc", "filerange", "etag"):
+            if ln["status"] in (206, 304, 412, 416):
+                ctx.nontrivial.add(repr(sorted(c.items(), key=str)))
+        elif ln["status"] in (206, 304, 412, 416):
             n = cd.norm(c)
             ctx.nontrivial.add((ln["status"], n["method"], n["inm"], n["im"], n["ims"], n["ifr"], n["range"], n["length"],
                                 tuple(n["etag"] or ()), tuple(n["lm"] or ()), n["shape"], n["block"], tuple(n["blocks"] or ())))
